@@ -2,9 +2,9 @@
   `updateIncludeEdgesLocked`: effect on the include graph and the reverse graph;
   `resolveIncludePaths`; reachability lemmas that do not depend on the workspace.
 -/
-import HL.Lemmas.Reach
+import HL.Lemmas.ReachIdx
 namespace HL.Lemmas.Edges
-open HL.Index HL.Workspace HL.Lemmas.AList HL.Lemmas.Reach HL.Spec.Rebuild
+open HL.Index HL.Workspace HL.Lemmas.AList HL.Lemmas.ReachIdx HL.Spec.Rebuild
 
 /-! ### resolveIncludePaths -/
 
